@@ -194,12 +194,150 @@ def _rule_r2_r3(text, log):
     return text
 
 
+
+def _rule_r6(text, log):
+    """R6: iterator-adapter chains of the exact shapes below are replaced by their defining loops
+    (std documentation of Iterator::all / filter / cloned / collect / zip / map / sum / for_each):
+      a) E.iter().enumerate().all(|(i, &v)| BODY)      -> index loop with early exit, BODY verbatim
+      b) E.iter().all(|&v| BODY)                       -> same without index
+      c) E.into_iter().filter(|x| PRED).cloned().collect() -> push loop (x bound to &E[i]), PRED verbatim
+      d) A.iter().zip(B.iter()).map(|(a, b)| BODY).sum() -> fold from 0.0 in index order (A, B fixed arrays of equal length)
+      e) E.iter_mut().for_each(|x| STMT)               -> index loop, x replaced by E[i] in STMT
+    """
+    m = rs.mask(text)
+    n = 0
+    # helper to find the closure body extent: from position after `|...|` to the matching ')' of the adapter call
+    def closure_body(m, open_paren):
+        close = rs.match_brace(m, open_paren)
+        inner = text[open_paren + 1:close]
+        mm = re.match(r'\s*\|([^|]*)\|\s*', inner)
+        if not mm:
+            return None
+        return mm.group(1).strip(), inner[mm.end():].strip(), close
+    out = text
+    # (a)/(b)
+    while True:
+        m = rs.mask(out)
+        mm = re.search(r'([A-Za-z_][A-Za-z0-9_.]*)\.iter\(\)(\.enumerate\(\))?\.all\(', m)
+        if not mm:
+            break
+        op = mm.end() - 1
+        close = rs.match_brace(m, op)
+        inner = out[op + 1:close]
+        cm = re.match(r'\s*\|([^|]*)\|\s*', inner)
+        if not cm:
+            raise Unsupported('R6: closure not recognised in .all()')
+        params, body = cm.group(1).strip(), inner[cm.end():].strip()
+        E = mm.group(1)
+        if mm.group(2):
+            pm = re.match(r'\(\s*([a-z_][a-z0-9_]*)\s*,\s*&\s*([a-z_][a-z0-9_]*)\s*\)$', params)
+            if not pm:
+                raise Unsupported('R6a: closure parameters %r' % params)
+            binds = 'let %s = __r6_i; let %s = %s[__r6_i];' % (pm.group(1), pm.group(2), E)
+        else:
+            pm = re.match(r'&\s*([a-z_][a-z0-9_]*)$', params)
+            if not pm:
+                raise Unsupported('R6b: closure parameters %r' % params)
+            binds = 'let %s = %s[__r6_i];' % (pm.group(1), E)
+        rep = ('{ let mut __r6_all = true; let mut __r6_i: usize = 0;\n'
+               '            while __r6_i < %s.len() && __r6_all {\n'
+               '                %s\n'
+               '                let __r6_b: bool = %s;\n'
+               '                if !__r6_b { __r6_all = false; }\n'
+               '                __r6_i += 1;\n'
+               '            }\n'
+               '            __r6_all }') % (E, binds, body)
+        out = out[:mm.start()] + rep + out[close + 1:]
+        n += 1
+    # (c)
+    while True:
+        m = rs.mask(out)
+        mm = re.search(r'([A-Za-z_][A-Za-z0-9_.]*)\.into_iter\(\)\s*\.filter\(', m)
+        if not mm:
+            break
+        op = mm.end() - 1
+        close = rs.match_brace(m, op)
+        tail = re.match(r'\s*\.cloned\(\)\s*\.collect\(\)', m[close + 1:])
+        if not tail:
+            raise Unsupported('R6c: filter not followed by .cloned().collect()')
+        inner = out[op + 1:close]
+        cm = re.match(r'\s*\|\s*([a-z_][a-z0-9_]*)\s*\|\s*', inner)
+        if not cm:
+            raise Unsupported('R6c: closure not recognised')
+        x, pred = cm.group(1), inner[cm.end():].strip()
+        E = mm.group(1)
+        rep = ('{ let mut __r6_out = Vec::new(); let mut __r6_i: usize = 0;\n'
+               '            while __r6_i < %s.len() {\n'
+               '                let %s = &%s[__r6_i];\n'
+               '                let __r6_b: bool = %s;\n'
+               '                if __r6_b { __r6_out.push(*%s); }\n'
+               '                __r6_i += 1;\n'
+               '            }\n'
+               '            __r6_out }') % (E, x, E, pred, x)
+        out = out[:mm.start()] + rep + out[close + 1 + tail.end():]
+        n += 1
+    # (d)
+    while True:
+        m = rs.mask(out)
+        mm = re.search(r'([A-Za-z_][A-Za-z0-9_]*)\.iter\(\)\s*\.zip\(\s*([A-Za-z_][A-Za-z0-9_]*)\.iter\(\)\s*\)\s*\.map\(', m)
+        if not mm:
+            break
+        op = mm.end() - 1
+        close = rs.match_brace(m, op)
+        tail = re.match(r'\s*\.sum\(\)', m[close + 1:])
+        if not tail:
+            raise Unsupported('R6d: map not followed by .sum()')
+        inner = out[op + 1:close]
+        cm = re.match(r'\s*\|\s*\(\s*([a-z_][a-z0-9_]*)\s*,\s*([a-z_][a-z0-9_]*)\s*\)\s*\|\s*', inner)
+        if not cm:
+            raise Unsupported('R6d: closure not recognised')
+        a, b, body = cm.group(1), cm.group(2), inner[cm.end():].strip()
+        A, B = mm.group(1), mm.group(2)
+        rep = ('{ let mut __r6_sum: f64 = 0.0; let mut __r6_i: usize = 0;\n'
+               '        while __r6_i < %s.len() {\n'
+               '            let %s = &%s[__r6_i]; let %s = &%s[__r6_i];\n'
+               '            let __r6_t: f64 = %s;\n'
+               '            __r6_sum = __r6_sum + __r6_t;\n'
+               '            __r6_i += 1;\n'
+               '        }\n'
+               '        __r6_sum }') % (A, a, A, b, B, body)
+        out = out[:mm.start()] + rep + out[close + 1 + tail.end():]
+        n += 1
+    # (e)
+    while True:
+        m = rs.mask(out)
+        mm = re.search(r'([A-Za-z_][A-Za-z0-9_.]*)\.iter_mut\(\)\s*\.for_each\(', m)
+        if not mm:
+            break
+        op = mm.end() - 1
+        close = rs.match_brace(m, op)
+        inner = out[op + 1:close]
+        cm = re.match(r'\s*\|\s*([a-z_][a-z0-9_]*)\s*\|\s*', inner)
+        if not cm:
+            raise Unsupported('R6e: closure not recognised')
+        x, stmt = cm.group(1), inner[cm.end():].strip()
+        E = mm.group(1)
+        stmt2 = re.sub(r'\b%s\b' % re.escape(x), '%s[__r6_i]' % E, stmt)
+        rep = ('{ let mut __r6_i: usize = 0;\n'
+               '        while __r6_i < %s.len() {\n'
+               '            %s;\n'
+               '            __r6_i += 1;\n'
+               '        } }') % (E, stmt2)
+        out = out[:mm.start()] + rep + out[close + 1:]
+        n += 1
+    if n:
+        log.append(('R6', n))
+    return out
+
+
 def apply_rewrites(text, log, rules):
     text = _strip_docs_attrs(text, log)
     if 'D2' in rules:
         text = _rule_d2(text, log)
     if 'R2' in rules:
         text = _rule_r2_r3(text, log)
+    if 'R6' in rules:
+        text = _rule_r6(text, log)
     if 'R8' in rules:
         text = _rule_r8(text, log)
     for r in rules:
@@ -300,20 +438,22 @@ def splice_fn(item_text, ann, log):
             if guard and re.sub(r'\s+', ' ', guard).strip() not in hdr:
                 raise LostAnchor('loop %d header %r does not contain guard %r' % (n, hdr, guard))
             ins.append((bopen, '\n' + payload + '\n'))
-    for kind in ('loopend', 'loopstart', 'preloop'):
+    for kind in ('loopend', 'loopstart', 'preloop', 'postloop'):
         for n, payload in ann.get(kind, {}).items():
             lp = rs.loops_in(body)
             if n < 1 or n > len(lp):
                 raise LostAnchor('loop %d not found (function has %d loops)' % (n, len(lp)))
             if kind == 'loopend':
                 pos = rs.match_brace(mbody, lp[n - 1][1])
+            elif kind == 'postloop':
+                pos = rs.match_brace(mbody, lp[n - 1][1]) + 1
             elif kind == 'loopstart':
                 pos = lp[n - 1][1] + 1
             else:
                 pos = body.rfind('\n', 0, lp[n - 1][0]) + 1
             ins.append((pos, '\n' + payload + '\n'))
     # unit axioms are re-stated at the head of every loop body (loops are verified in isolation)
-    for (kwpos, bopen, kw) in rs.loops_in(body):
+    for (kwpos, bopen, kw) in ([] if ann.get('noaxioms') else rs.loops_in(body)):
         ins.append((bopen + 1, ' proof { unit_axioms(); } '))
     for (k, text, payload) in ann.get('before', []):
         # k-th occurrence of text in body (code only), insertion at start of its line
@@ -334,7 +474,7 @@ def splice_fn(item_text, ann, log):
             raise LostAnchor('anchor %r (#%d) not found' % (text, k))
         ls = body.rfind('\n', 0, pos) + 1
         ins.append((ls, payload + '\n'))
-    st = 'proof { unit_axioms(); }'
+    st = '' if ann.get('noaxioms') else 'proof { unit_axioms(); }'
     if ann.get('start'):
         st = st + '\n' + ann['start']
     ins.append((1, '\n' + st + '\n'))
@@ -421,7 +561,7 @@ def generate(unit_path, repo=REPO):
                 opts = dict(re.findall(r'\b(props|kind|ret|rename|vis)=(\S+)', rest))
                 ipath = re.sub(r'\s*\b(props|kind|ret|rename|vis)=\S+', '', rest).strip()
                 props = opts.get('props', ','.join(cur_props)).split(',') if (opts.get('props') or cur_props) else []
-                ann = dict(attr=[], loops={}, loopend={}, loopstart={}, preloop={}, before=[], ret=opts.get('ret'))
+                ann = dict(attr=[], loops={}, loopend={}, loopstart={}, preloop={}, postloop={}, before=[], ret=opts.get('ret'))
                 i += 1
                 section = None
                 payload = []
@@ -438,7 +578,7 @@ def generate(unit_path, repo=REPO):
                         ann['loops'][sect_arg[0]] = (sect_arg[1], txt)
                     elif section == 'before':
                         ann['before'].append((sect_arg[0], sect_arg[1], txt))
-                    elif section in ('loopend', 'loopstart', 'preloop'):
+                    elif section in ('loopend', 'loopstart', 'preloop', 'postloop'):
                         ann[section][sect_arg] = txt
                     section, payload, sect_arg = None, [], None
 
@@ -461,7 +601,7 @@ def generate(unit_path, repo=REPO):
                             mm = re.match(r'loop\s+(\d+)(?:\s+`(.*)`)?', d2)
                             section = 'loop'
                             sect_arg = (int(mm.group(1)), mm.group(2))
-                        elif d2.split()[0] in ('loopend', 'loopstart', 'preloop'):
+                        elif d2.split()[0] in ('loopend', 'loopstart', 'preloop', 'postloop'):
                             section = d2.split()[0]
                             sect_arg = int(d2.split()[1])
                         elif d2.startswith('before '):
@@ -489,6 +629,14 @@ def generate(unit_path, repo=REPO):
                     const_axioms.append(cname)
                     const_facts[cname] = cfact
                     text = gen
+                elif kind == 'contract':
+                    # signature verbatim, body dropped: the contract is ASSUMED here (external_body) and
+                    # discharged elsewhere (engine B harness named in the unit) or listed as trusted
+                    txt = _strip_docs_attrs(raw, log)
+                    prefix, body, rest = rs.fn_parts(txt)
+                    ann2 = dict(ann)
+                    text = splice_fn(prefix + '{ unimplemented!() }' + rest, dict(spec=ann.get('spec', ''), ret=ann.get('ret'), attr=['#[verifier::external_body]'] + ann.get('attr', []), noaxioms=True), log)
+                    log.append(('CONTRACT-ONLY', 1))
                 else:
                     text = apply_rewrites(raw, log, header['rules'])
                     if it['kind'] == 'fn' and it['body_open'] is not None:
@@ -551,7 +699,9 @@ def generate(unit_path, repo=REPO):
     lit_lines.append('{ ax_obeys(); ax_literals(); %s }' % ' '.join('ax_const_%s();' % cn for cn in const_axioms))
     pre_text = '\n'.join(pre + lit_lines)
     offset = pre_text.count('\n') + 1
-    post = ['} // mod unit', '} // verus!', 'fn main() {}', '']
+    post = ['// vacuity canary: MUST FAIL (checked by the runner); proves the assumptions in scope are not contradictory',
+            'proof fn canary_must_fail() { unit_axioms(); assert(false); }',
+            '} // mod unit', '} // verus!', 'fn main() {}', '']
     text = pre_text + '\n' + '\n'.join(out) + '\n' + '\n'.join(post)
     for r in regions:
         r.first += offset
